@@ -946,6 +946,7 @@ package gogen
 //@ readonly
 //@ requires a != nil && b != nil && IsBinaryTok(tok) && len(ctx) >= 2 && ctx[1] != nil
 //@ requires imp(IsCompareTok(tok), CmpOperandsOK(a, tok, b))
+//@ requires imp(tok == token.QUO || tok == token.REM || tok == token.QUO_ASSIGN, !CIsZero(b))
 //@ ensures imp(!IsShiftTok(tok) && !IsCompareTok(tok), result == constant.BinaryOp(a, tok, b))
 //@ ensures imp(IsCompareTok(tok), result == constant.MakeBool(constant.Compare(a, tok, b)))
 //@ ensures imp(IsShiftTok(tok), cKind(constant.ToInt(b)) == 3 && tuple1(constant.Int64Val(constant.ToInt(b))) && 0 <= tuple0(constant.Int64Val(constant.ToInt(b))) && tuple0(constant.Int64Val(constant.ToInt(b))) <= 1074 && result == constant.Shift(constant.ToInt(a), tok, tuple0(constant.Int64Val(constant.ToInt(b)))))
@@ -954,6 +955,7 @@ package gogen
 //@ prop C04
 //@ readonly
 //@ requires cb != nil && IsBinaryTok(tok) && tok != 26
+//@ requires imp(len(args) == 2 && (tok == token.QUO || tok == token.REM) && args[0] != nil && args[1] != nil && args[0].CVal != nil && args[1].CVal != nil, !CIsZero(args[1].CVal))
 //@ requires imp(len(args) == 2 && IsCompareTok(tok) && args[0] != nil && args[1] != nil && args[0].CVal != nil && args[1].CVal != nil, CmpOperandsOK(args[0].CVal, tok, args[1].CVal))
 //@ requires imp(len(args) == 2, args[0] != nil && args[1] != nil && args[0].Type != nil && args[1].Type != nil && StdType(args[0].Type) && StdType(args[1].Type))
 //@ ensures (result != nil) ==> (len(args) == 2 && args[0].CVal != nil && args[1].CVal != nil)
@@ -1295,3 +1297,254 @@ package gogen
 // every store, map update, copy/clear/delete whose target is rooted at a package-level variable outside the package
 // initialisers; the only ones are the debug switches
 //@ site gogen.SetDebug own.globalstore 5 reviewed: process-wide debug switches (debugInstr, debugImport, debugMatch, debugComments, debugWriteFile) set by the client before building; they only enable logging and are documented as global configuration
+
+// ---------------------------------------------------------------------------
+// C08 — selector resolution
+
+// Go spec "Exported identifiers" / "Uniqueness of identifiers": a member is visible iff it is exported, or it belongs
+// to the package being built (path equality), or it is predeclared (no package)
+//@ func (*CodeBuilder).allowAccess
+//@ prop C08
+//@ readonly
+//@ requires p.pkg != nil && p.pkg.Types != nil
+//@ ensures result == (ast.IsExported(name) || pkg == nil || pkg.Path() == p.pkg.Types.Path())
+
+//@ func (PkgRef).Path
+//@ prop C08
+//@ readonly
+//@ nosafety
+//@ ensures result == p.Types.Path()
+
+// the recorder is client code: it is trusted not to touch builder state
+//@ func (Recorder).Member
+//@ trusted
+//@ readonly
+
+//@ func tupleFieldName
+//@ prop C08
+//@ pure
+//@ ensures result == "X_" + strconv.Itoa(i)
+
+// tuple fields: the field of that name is selected and emitted under its ordinal name X_<i>
+//@ func (*tupleFields).FindField
+//@ prop C08 C16
+//@ requires cb != nil && arg != nil && len(cb.stk.data) >= 1 && forall(i, 0, len(p.fields), p.fields[i] != nil)
+//@ assigns cb.stk.data, elems(cb.stk.data)
+//@ loop 0 invariant cb.stk.data == old(cb.stk.data) && unchanged("A!*internal.Elem") && forall(j, 0, rangeidx + 1, p.fields[j].Name() != name)
+//@ ensures len(cb.stk.data) == old(len(cb.stk.data)) && forall(i, 0, len(cb.stk.data) - 1, cb.stk.data[i] == old(cb.stk.data[i]))
+//@ ensures imp(!result, cb.stk.data[len(cb.stk.data)-1] == old(cb.stk.data[len(cb.stk.data)-1]))
+//@ ensures result == exists(j, 0, len(p.fields), p.fields[j].Name() == name)
+//@ ensures imp(result, fresh(cb.stk.data[len(cb.stk.data)-1]) && exists(j, 0, len(p.fields), p.fields[j].Name() == name && forall(k, 0, j, p.fields[k].Name() != name) && cb.stk.data[len(cb.stk.data)-1].Type == p.fields[j].Type()))
+
+// the emitted selector: x.name over the operand's expression; the selector identifier denotes the operand
+//@ func selector
+//@ prop C08 C02
+//@ readonly
+//@ requires arg != nil
+//@ ensures fresh(result) && result.X == arg.Val && result.Sel != nil && fresh(result.Sel) && result.Sel.Name == name
+
+//@ func (*CodeBuilder).findVField
+//@ prop C08
+//@ requires len(p.stk.data) >= 1 && arg != nil && VftsWf(p)
+//@ assigns p.stk.data, elems(p.stk.data)
+//@ ensures len(p.stk.data) == old(len(p.stk.data)) && forall(i, 0, len(p.stk.data) - 1, p.stk.data[i] == old(p.stk.data[i]))
+//@ ensures imp(!result, p.stk.data[len(p.stk.data)-1] == old(p.stk.data[len(p.stk.data)-1]))
+
+// direct fields (Go spec "Selectors", depth 0): the first visible field whose name is the selector (ordinal selectors
+// name the tuple fields X_<n>) is selected — field names of a struct are unique, so it is the field of that name; the
+// operand on the stack is replaced by the selector expression typed with the field's type; otherwise the struct's
+// virtual fields are consulted and the stack is left as it was when nothing matches
+//@ func (*CodeBuilder).normalField
+//@ prop C08 C03 C16
+//@ requires p.pkg != nil && p.pkg.Types != nil && o != nil && arg != nil && len(name) >= 1 && len(p.stk.data) >= 1 && VftsWf(p)
+//@ assigns p.stk.data, elems(p.stk.data)
+//@ loop 0 invariant 0 <= i && i <= n && n == o.NumFields() && p.stk.data == old(p.stk.data) && unchanged("A!*internal.Elem")
+//@ loop 0 invariant forall(j, 0, i, !DirectFieldHit(p, o, j, FieldSelName(entry(name))))
+//@ ensures result == 3 || result == 0
+//@ ensures len(p.stk.data) == old(len(p.stk.data)) && forall(i, 0, len(p.stk.data) - 1, p.stk.data[i] == old(p.stk.data[i]))
+//@ ensures imp(exists(j, 0, o.NumFields(), DirectFieldHit(p, o, j, FieldSelName(name))), result == 3 && fresh(p.stk.data[len(p.stk.data)-1]) && exists(j, 0, o.NumFields(), DirectFieldHit(p, o, j, FieldSelName(name)) && forall(k, 0, j, !DirectFieldHit(p, o, k, FieldSelName(name))) && p.stk.data[len(p.stk.data)-1].Type == o.Field(j).Type()))
+//@ ensures imp(exists(j, 0, o.NumFields(), DirectFieldHit(p, o, j, FieldSelName(name))), typeis(p.stk.data[len(p.stk.data)-1].Val, *ast.SelectorExpr) && p.stk.data[len(p.stk.data)-1].Val.(*ast.SelectorExpr).X == old(arg.Val) && p.stk.data[len(p.stk.data)-1].Val.(*ast.SelectorExpr).Sel.Name == FieldSelName(name) && p.stk.data[len(p.stk.data)-1].Src == src)
+//@ ensures imp(result == 0, p.stk.data[len(p.stk.data)-1] == old(p.stk.data[len(p.stk.data)-1]))
+
+// members of a method list (named type or interface); static value members are a builder convention, read-only
+//@ func (methodList).NumMethods
+//@ trusted
+//@ pure
+//@ ensures result >= 0
+//@ func (methodList).Method
+//@ trusted
+//@ pure
+//@ requires 0 <= i && i < recv.NumMethods()
+//@ ensures result != nil
+//@ func isStaticValueMember
+//@ trusted
+//@ pure
+//@ func methodHasAutoProperty
+//@ trusted
+//@ readonly
+//@ func (*CodeBuilder).methodSigOf
+//@ trusted
+//@ assigns ret.Val, all(ast.SelectorExpr.X), all(ast.SelectorExpr.Sel), all(internal.Elem.Val)
+//@ func (*CodeBuilder).btiMethod
+//@ trusted
+//@ assigns heap
+//@ func (*CodeBuilder).getBuiltinTI
+//@ trusted
+//@ readonly
+//@ func (*CodeBuilder).CallWith
+//@ trusted
+//@ assigns heap
+
+// methods: the selected method is the first visible, non-static method whose name is the selector; with an alias flag
+// the capitalised alias is accepted only when no such method precedes it (stated as the code behaves: an alias that
+// belongs to another package stops the scan); the emitted selector carries the name of the method actually found
+//@ func (*CodeBuilder).method
+//@ prop C08
+//@ partial
+//@ requires p.pkg != nil && p.pkg.Types != nil && o != nil && arg != nil && len(p.stk.data) >= 1
+//@ loop 0 invariant 0 <= i && i <= n && n == o.NumMethods() && forall(j, 0, i, !MethodHit(p, o, j, name))
+//@ loop 0 invariant !exact
+//@ loop 0 invariant imp(found != nil, flag > 0)
+//@ loop 0 invariant imp(found != nil, exists(j, 0, i, o.Method(j) == found && MethodHit(p, o, j, aliasName)))
+//@ assertcall selector: exists(j, 0, o.NumMethods(), MethodHit(p, o, j, arg_name) && forall(k, 0, j, !MethodHit(p, o, k, name)) && (arg_name == name || (flag > 0 && arg_name == aliasName)))
+
+// assignment targets x.f (direct part of fieldRef): the field named by the selector, which must be visible from the
+// package being built exactly as on the value side (Go spec "Selectors": x.f denotes the same field in both roles)
+//@ func (*CodeBuilder).fieldRef
+//@ prop C08
+//@ partial
+//@ requires p.pkg != nil && p.pkg.Types != nil && o != nil && len(name) >= 1 && len(p.stk.data) >= 1
+//@ loop 0 invariant 0 <= i && i <= n && n == o.NumFields() && forall(j, 0, i, !DirectFieldHit(p, o, j, FieldSelName(entry(name))))
+//@ assertcall ident: arg_name == FieldSelName(entry(name)) && DirectFieldHit(p, o, i, arg_name)
+
+// ---------------------------------------------------------------------------
+// C01 — the gates: functions that must reject what Go rejects. Matched(arg, t) is the ghost event "arg was tested
+// assignable to t and accepted" (C05 owns what the test means); every gate proves that a normal return implies the
+// arity rule of the Go specification and a Matched event for each operand position against the type Go assigns to it
+
+//@ func getParamLen
+//@ prop C01
+//@ pure
+//@ requires sig != nil
+//@ ensures result == sig.Params().Len() + ite(sig.Recv() != nil, 1, 0)
+
+// parameter i of a call through a method value counts the receiver as parameter 0
+//@ func getParam
+//@ prop C01
+//@ pure
+//@ requires sig != nil && 0 <= i && i < sig.Params().Len() + ite(sig.Recv() != nil, 1, 0)
+//@ ensures result == ite(sig.Recv() != nil, ite(i == 0, sig.Recv(), sig.Params().At(i - 1)), sig.Params().At(i))
+//@ ensures result != nil
+
+//@ func getParam1st
+//@ prop C01
+//@ pure
+//@ requires sig != nil
+//@ ensures result == ite(sig.Recv() != nil, 1, 0)
+
+//@ func isReflectType
+//@ prop C01
+//@ pure
+
+//@ func checkTuple
+//@ prop C01
+//@ requires t != nil
+//@ assigns *t
+//@ ensures result == typeis(typ, *types.Tuple) && *t == ite(result, typ.(*types.Tuple), nil)
+
+// the assignability gate (abstract boundary of C01; its verdict is C05's subject): a nil result defines the event.
+// Frame (trusted): it may rewrite the operand's own fields, push and pop operands above the current stack top and
+// emit nothing; it never overwrites a slot of an operand list
+//@ func matchType
+//@ trusted
+//@ assigns heapexcept([]*internal.Elem; *Package)
+//@ defines imp(result == nil, Matched(arg, param))
+
+//@ func matchArgType
+//@ prop C01
+//@ requires pkg != nil && arg != nil
+//@ assigns heapexcept([]*internal.Elem; *Package)
+//@ ensures imp(result == nil, Matched(arg, texp) || (typeis(old(arg.Type), *TypeType) && isReflectType(texp)))
+
+//@ func buildTypeForCallExpr
+//@ trusted
+//@ assigns heapexcept([]*internal.Elem; *Package)
+
+// every argument is matched against the parameter Go assigns to its position
+//@ func matchFuncArgs
+//@ prop C01
+//@ requires pkg != nil && sig != nil && len(args) <= getParamLen(sig) && forall(i, 0, len(args), args[i] != nil)
+//@ assigns heapexcept([]*internal.Elem; *Package)
+//@ loop 0 invariant forall(j, 0, rangeidx + 1, ArgMatched(args[j], getParam(sig, j).Type()))
+//@ ensures imp(result == nil, forall(j, 0, len(args), ArgMatched(args[j], getParam(sig, j).Type())))
+
+// the variadic tail is matched against the element type
+//@ func matchVariadicArgs
+//@ prop C01
+//@ requires pkg != nil && forall(i, 0, len(vals), vals[i] != nil)
+//@ assigns heapexcept([]*internal.Elem; *Package)
+//@ loop 0 invariant forall(j, 0, rangeidx + 1, ArgMatched(vals[j], elt))
+//@ ensures imp(result == nil, forall(j, 0, len(vals), ArgMatched(vals[j], elt)))
+
+//@ func getFunExpr
+//@ trusted
+//@ readonly
+//@ func getTypes
+//@ trusted
+//@ readonly
+//@ func (*CodeBuilder).newCodeErrorf
+//@ prop C17
+//@ readonly
+//@ ensures result != nil && fresh(result)
+
+// Go spec "Calls" / "Passing arguments to ... parameters": a nil result implies the arity rule for the call form
+// (CallArityOK) and that every argument position was matched against the parameter Go assigns to it: position j
+// against parameter j (the receiver of a method value counts as parameter 0), and in a variadic call without "..."
+// the positions from the last parameter on against its element type. The form f(g()) with a single operand of tuple
+// type is excluded by precondition (its components are matched through throw-away operands the caller cannot name).
+//@ func matchFuncType
+//@ prop C01
+//@ requires pkg != nil && pkg.cb.pkg != nil && sig != nil && flags >= 0 && forall(i, 0, len(args), args[i] != nil)
+//@ requires !TupleArg(args)
+//@ assigns heapexcept([]*internal.Elem; *Package), when(len(args) > 0, args[0].Type)
+//@ ensures imp(result == nil && lhs == 2, sig.Results().Len() == 2)
+//@ ensures imp(result == nil, CallArityOK(len(args), getParamLen(sig), sig.Variadic(), flags % 2 == 1))
+//@ ensures imp(result == nil && sig.Variadic() && flags % 2 == 0, typeis(getParam(sig, getParamLen(sig) - 1).Type(), *types.Slice))
+//@ ensures imp(result == nil && !(sig.Variadic() && flags % 2 == 0), forall(j, 0, len(args), ArgMatched(args[j], getParam(sig, j).Type())))
+//@ ensures imp(result == nil && sig.Variadic() && flags % 2 == 0, forall(j, 0, getParamLen(sig) - 1, ArgMatched(args[j], getParam(sig, j).Type())) && forall(j, 0, len(args) - (getParamLen(sig) - 1), ArgMatched(args[getParamLen(sig) - 1 + j], getParam(sig, getParamLen(sig) - 1).Type().(*types.Slice).Elem())))
+
+// constant division: before the builtin operator is applied (and its constant operands folded), a zero divisor of a
+// constant division or remainder has been reported (Go spec "Arithmetic operators": the divisor of a constant
+// division or remainder operation must not be zero)
+//@ func (*CodeBuilder).BinaryOp
+//@ prop C04 C17 C01
+//@ partial
+//@ requires p.pkg != nil && len(p.stk.data) >= 2 && forall(i, 0, len(p.stk.data), p.stk.data[i] != nil && p.stk.data[i].Type != nil && StdType(p.stk.data[i].Type))
+//@ assertcall matchFuncCall[flags == 0]: imp((op == token.QUO || op == token.REM) && args[0].CVal != nil && args[1].CVal != nil, !CIsZero(args[1].CVal))
+
+// an operand for a declared object: its reference expression, its type with aliases resolved, its constant value
+//@ func toObject
+//@ prop C03 C09
+//@ requires PkgWf(pkg) && v != nil && v.Type() != nil
+//@ assigns pkg.file.dirty, map(pkg.file.imps)
+//@ ensures fresh(result) && result.Src == src && result.Val != nil && result.Type == realType(v.Type())
+//@ ensures result.CVal == ite(typeis(v, *types.Const), v.(*types.Const).Val(), nil)
+
+//@ func isUnnamedParams
+//@ prop C01
+//@ readonly
+//@ nilok
+//@ loop 0 invariant 0 <= i && i <= n && n == t.Len() && forall(j, 0, i, t.At(j).Name() != "")
+//@ ensures result == (t == nil || exists(j, 0, t.Len(), t.At(j).Name() == ""))
+
+// Go spec "Return statements": a return without operands needs no results or named results; otherwise the operands
+// are as many as the results and each is assignable to its result type, or a single call supplies all of them
+//@ func checkFuncResults
+//@ prop C01
+//@ requires pkg != nil && forall(i, 0, len(rets), rets[i] != nil && rets[i].Type != nil)
+//@ assigns heapexcept([]*internal.Elem; *Package)
+//@ loop 0 invariant 0 <= i && i <= need && t != nil && need == t.Len() && need == results.Len()
+//@ loop 1 invariant 0 <= i && i <= need && need == results.Len() && len(rets) == need && forall(j, 0, i, Matched(rets[j], results.At(j).Type()))
+//@ ensures len(rets) == 0 ==> (results.Len() == 0 || !(results == nil || exists(j, 0, results.Len(), results.At(j).Name() == "")))
+//@ ensures len(rets) == 1 && typeis(old(rets[0].Type), *types.Tuple) ==> old(rets[0].Type).(*types.Tuple).Len() == results.Len()
+//@ ensures len(rets) >= 1 && !(len(rets) == 1 && typeis(old(rets[0].Type), *types.Tuple)) ==> len(rets) == results.Len() && forall(j, 0, len(rets), Matched(rets[j], results.At(j).Type()))
